@@ -73,7 +73,7 @@ fn instance_param(port: u32, weight: f32, enabled: bool) -> InstanceRegisterPara
 const ALPHABET: usize = 20;
 
 fn request(i: usize) -> ClientRequest {
-    let users = s("user");
+    let users = s("T_USER");
     match i {
         0 => ClientRequest::ConfigSet { key: K1.to_owned(), value: s("v1"), config_type: None, desc: None, history_id: 1, history_table_id: None, op_time: 1_700_000_000_001, op_user: None },
         1 => ClientRequest::ConfigSet { key: K1.to_owned(), value: s("v2"), config_type: Some(s("json")), desc: Some(s("second")), history_id: 2, history_table_id: Some(12), op_time: 1_700_000_000_002, op_user: Some(s("alice")) },
@@ -124,11 +124,11 @@ async fn observe(n: &NodeSet) -> String {
     if let ConfigResult::SequenceSection { start, end } = n.h.config.send(ConfigCmd::GetSequenceSection(1)).await.unwrap().unwrap() {
         out.push_str(&format!("cfgseq=({},{}) ", start, end));
     }
-    match n.h.table.send(TableManagerQueryReq::QueryPageList { table_name: s("user"), like_key: None, offset: None, limit: None, is_rev: false }).await.unwrap().unwrap() {
+    match n.h.table.send(TableManagerQueryReq::QueryPageList { table_name: s("T_USER"), like_key: None, offset: None, limit: None, is_rev: false }).await.unwrap().unwrap() {
         TableManagerResult::PageListResult(size, list) => out.push_str(&format!("table={}:{:?} ", size, list)),
         _ => out.push_str("table=? "),
     }
-    match n.h.table.send(TableManagerReq::NextId { table_name: s("user"), seq_step: Some(1) }).await.unwrap() {
+    match n.h.table.send(TableManagerReq::NextId { table_name: s("T_USER"), seq_step: Some(1) }).await.unwrap() {
         Ok(TableManagerResult::NextId(id)) => out.push_str(&format!("tableseq={} ", id)),
         Ok(_) => out.push_str("tableseq=? "),
         Err(_) => out.push_str("tableseq=err "),
@@ -235,4 +235,109 @@ fn vx_bounded_c07_paths() {
     let _ = std::fs::remove_dir_all(&base);
     for f in failures.iter() { println!("{}", f); }
     assert!(failures.is_empty(), "{} divergences between the apply paths", failures.len());
+}
+
+
+// ------------------------------------------------------------------------------------------------------------------------
+// Bounded stand-in for C01 (served state survives restart: snapshot plus log replay), component level: node A applies a
+// request sequence through the leader path; at a cut point its seven real component actors write a snapshot through the real
+// SnapshotWriterActor into a real file; a fresh node B loads that file through the real SnapshotReader +
+// RaftDataHandler::load_snapshot + load_complete and replays the entries behind the cut through load_log.  B must answer every
+// query as A does.  Every sequence of length <= 2 with every cut point, every sequence of length 3 with the cut after the
+// first or after the second entry (alternating).
+use crate::raft::filestore::model::SnapshotHeaderDto;
+use crate::raft::filestore::raftsnapshot::{SnapshotReader, SnapshotWriterRequest};
+
+async fn snapshot_and_restore(a: &NodeSet, b: &NodeSet, path: &str) -> anyhow::Result<usize> {
+    let _ = std::fs::remove_file(path);
+    let header = SnapshotHeaderDto { last_index: 7, last_term: 1, member: vec![1], member_after_consensus: vec![], node_addrs: HashMap::new() };
+    let writer = SnapshotWriterActor::new(Arc::new(path.to_owned()), header).start();
+    a.h.build_snapshot(writer.clone()).await?;
+    writer.send(SnapshotWriterRequest::Flush).await??;
+    let mut reader = SnapshotReader::init(path).await?;
+    let mut n = 0;
+    while let Some(record) = reader.read_record().await? {
+        b.h.load_snapshot(record).await?;
+        n += 1;
+    }
+    b.h.load_complete()?;
+    Ok(n)
+}
+
+fn without_field(obs: &str, field: &str) -> (String, String) {
+    match obs.find(field) {
+        Some(i) => { let j = obs[i..].find(' ').map(|k| i + k + 1).unwrap_or(obs.len()); (format!("{}{}", &obs[..i], &obs[j..]), obs[i..j].trim().to_owned()) }
+        None => (obs.to_owned(), String::new()),
+    }
+}
+
+#[test]
+fn vx_bounded_c01_restart() {
+    let base = std::env::temp_dir().join(format!("vx_c01_{}", std::process::id()));
+    let _ = std::fs::remove_dir_all(&base);
+    std::fs::create_dir_all(&base).unwrap();
+    let sys = actix::System::new();
+    let failures: Vec<String> = sys.block_on(async {
+        let mut failures: Vec<String> = vec![];
+        let mut index = vec![];
+        for p in ["before", "after"] {
+            let dir = base.join(p);
+            std::fs::create_dir_all(&dir).unwrap();
+            index.push(RaftIndexManager::new(Arc::new(dir.to_string_lossy().to_string())).start());
+        }
+        let snap = base.join("snapshot.data").to_string_lossy().to_string();
+        let mut runs: Vec<(Vec<usize>, usize)> = vec![];
+        for a in 0..ALPHABET {
+            for cut in 0..=1 { runs.push((vec![a], cut)); }
+            for b in 0..ALPHABET {
+                for cut in 0..=2 { runs.push((vec![a, b], cut)); }
+                for c in 0..ALPHABET { runs.push((vec![a, b, c], 1 + (a + b + c) % 2)); }
+            }
+        }
+        let mut checked = 0u64;
+        let mut records = 0usize;
+        let mut tableseq_lost = 0u64;
+        let mut cache_only = 0u64;
+        let mut tableseq_example = String::new();
+        for (seq, cut) in runs.iter() {
+            let a = new_set(index[0].clone());
+            let b = new_set(index[1].clone());
+            for &i in seq[..*cut].iter() { let _ = a.h.apply_log_to_state_machine(request(i), &a.index).await; }
+            match snapshot_and_restore(&a, &b, &snap).await {
+                Ok(n) => records += n,
+                Err(e) => { if failures.len() < 12 { failures.push(format!("VX-BOUNDED-FAIL RESTART {} cut {}: snapshot / restore failed: {}", seq_name(seq), cut, e)); } continue; }
+            }
+            for &i in seq[*cut..].iter() {
+                let _ = a.h.apply_log_to_state_machine(request(i), &a.index).await;
+                let _ = b.h.load_log(request(i), &b.index).await;
+            }
+            let (oa, ob) = (observe(&a).await, observe(&b).await);
+            checked += 1;
+            if oa != ob {
+                // the id counter of a table (TableManagerReq::NextId / Set{last_seq_id}) is reported apart from everything else
+                // cache entries (login sessions, rate limiters) are not in the statement's list of served state: not compared here
+                let (oa, _) = without_field(&oa, "cache=");
+                let (ob, _) = without_field(&ob, "cache=");
+                let (ma, ta) = without_field(&oa, "tableseq=");
+                let (mb, tb) = without_field(&ob, "tableseq=");
+                if oa == ob {
+                    cache_only += 1;
+                } else if ma == mb {
+                    tableseq_lost += 1;
+                    if tableseq_example.is_empty() { tableseq_example = format!("sequence {} compacted after {} entries: before {} after {}", seq_name(seq), cut, ta, tb); }
+                } else if failures.len() < 12 {
+                    failures.push(format!("VX-BOUNDED-FAIL RESTART {} cut {}: the restarted node differs:\n   before  {}\n   after   {}", seq_name(seq), cut, oa, ob));
+                }
+            }
+        }
+        if tableseq_lost > 0 {
+            failures.push(format!("VX-BOUNDED-FAIL TABLESEQ lost-on-snapshot in {} of {} runs (everything else identical), e.g. {}", tableseq_lost, checked, tableseq_example));
+        }
+        if records == 0 { failures.push("VX-BOUNDED-FAIL VACUITY no snapshot record was ever written".to_owned()); }
+        println!("vx_bounded_c01_restart: {} (sequence, compaction point) pairs, {} snapshot records restored; {} runs differ only in the direct cache (not compared)", checked, records, cache_only);
+        failures
+    });
+    let _ = std::fs::remove_dir_all(&base);
+    for f in failures.iter() { println!("{}", f); }
+    assert!(failures.is_empty(), "{} differences between a node and its restarted self", failures.len());
 }
